@@ -126,6 +126,17 @@ def gen_case(rng, pkgbase):
                                          "implements": gen.mixcase(rng, rng.choice(abstract)),
                                          "items": [{"kind": "key", "name": "v", "attribute": None, "required": False,
                                                     "handler": None, "datatype": "string", "default": "d"}]}}
+    if not ast.get("imports") and not ast.get("_extra_import") and rng.random() < 0.3:
+        # the abstract types, and a section type with a slot for one of them, come from a library
+        # schema that the application schema imports by '<import src>'; implementers are declared
+        # outside the library (by the application schema, by %import-ed components)
+        box = {"name": "box", "keytype": None, "datatype": None, "implements": None, "extends": None,
+               "items": [{"kind": "multisection", "name": "*", "attribute": "inner", "required": False,
+                          "handler": None, "type": gen.mixcase(rng, rng.choice(abstract))}]}
+        types.insert(0, box)
+        items.append({"kind": "multisection", "name": "*", "attribute": "boxes", "required": False,
+                      "handler": None, "type": "box"})
+        ast["_library"] = ["box"]
     return ast, packages
 
 
@@ -195,6 +206,13 @@ def gen_guided_text(rng, ast, packages):
             body.append(["<%s/>" % head])
         else:
             body.append(["<%s>" % head, "  v value", "</%s>" % t])
+    if ast.get("_library") and avail:
+        inner = ast["types"][0]["items"][0]["type"].lower()
+        for _ in range(rng.randint(0, 2)):
+            fit = [t for t in avail if (t.get("implements") or "").lower() == inner]
+            t = rng.choice(fit) if fit and rng.random() < 0.8 else rng.choice(avail)
+            if t["name"] != "box":
+                body.append(["<box>", "  <%s/>" % gen.mixcase(rng, t["name"]), "</box>"])
     if named and avail and rng.random() < 0.7:
         t = rng.choice(avail)          # any available type, implementer of that abstract type or not
         body.append(["<%s main/>" % gen.mixcase(rng, t["name"])])
@@ -229,6 +247,7 @@ def gen_text(rng, ast, packages):
     for p in list(packages)[:2]:
         imports += [p + ".", "." + p, p + "..", "." + p + ".", p.upper() if p.upper() != p else p + "x",
                     # the whole argument is the name: a good name followed by anything is another name
+                    p + ".zcvmod", p + ".zcvmod", p + ".component", p + ".nosuchmod",
                     p + " nosuch", p + " component.xml", p + "\tx", p + " " + p, p + "  # main library"]
     lines = []
     names = ["n1", "n2", "n3", "n4", "n5", "n6", "n7"]
@@ -246,7 +265,9 @@ def gen_text(rng, ast, packages):
                 lines.append("<%s%s/>" % (gen.mixcase(rng, t), nm))
             else:
                 lines.append("<%s%s>" % (gen.mixcase(rng, t), nm))
-                if rng.random() < 0.5:
+                if t == "box" and rng.random() < 0.8:
+                    lines.append("  <%s/>" % gen.mixcase(rng, rng.choice(alltypes + extra)))
+                elif rng.random() < 0.5:
                     lines.append("  v x%d" % len(lines))
                 lines.append("</%s>" % t)
     return "".join(l + "\n" for l in lines)
@@ -262,7 +283,9 @@ def compare_sequence(ast, packages, texts, late=None):
     sys.path) just before text k is loaded."""
     ZConfig = loadcheck.zc()
     comp = compose.Composed()
-    comp.packages = {p: {"component.xml": gen.render_schema(a, root="component")} for p, a in packages.items()}
+    comp.packages = {p: {"component.xml": gen.render_schema(a, root="component"),
+                         # a plain module inside the package: not a package, whatever surrounds it
+                         "zcvmod.py": "X = 1\n"} for p, a in packages.items()}
     extra = ast.get("_extra_import")
     if extra and extra["package"] in packages:
         import copy
@@ -276,6 +299,15 @@ def compare_sequence(ast, packages, texts, late=None):
         ast = copy.deepcopy(ast)
         ast["types"] = [extra["type"]] + ast["types"]
         ast["abstract_first"] = True
+    elif ast.get("_library"):
+        import copy
+        lib = [t for t in ast["types"] if t["name"] in ast["_library"]]
+        xml_ast = copy.deepcopy(ast)
+        xml_ast["abstract"] = []
+        xml_ast["types"] = [t for t in xml_ast["types"] if t["name"] not in ast["_library"]]
+        xml_ast["import_srcs"] = ["zcvlib.xml"]
+        comp.main_xml = gen.render_schema(xml_ast)
+        comp.files["main/zcvlib.xml"] = gen.render_schema({"abstract": ast["abstract"], "types": lib, "items": []})
     else:
         comp.main_xml = gen.render_schema(ast)
     _LINK["n"] += 1
@@ -414,6 +446,8 @@ def run_shard(spec):
             if ref is not None:
                 counters["verdict:" + ref.kind] += 1
                 if ref.kind == "accept":
+                    if ast.get("_library") and ref.stats["nested"] >= 1:
+                        counters["accepted-implementer-inside-library-type"] += 1
                     if ref.stats.get("childless_sections"):
                         counters["accepted-childless-implementer"] += 1
                     if ref.stats["imported_types_used"]:
@@ -440,7 +474,7 @@ def run_shard(spec):
 def check_coverage(tier, c):
     problems = []
     for k in ("accepted-with-imported-type", "rule:no-slot", "rule:unknown-type", "rule:abstract-type-named",
-              "rule:import-unknown-package", "rule:import-broken-component", "accepted-childless-implementer", "verdict:accept"):
+              "rule:import-unknown-package", "rule:import-broken-component", "accepted-childless-implementer", "accepted-implementer-inside-library-type", "verdict:accept"):
         if c.get(k, 0) < 20:
             problems.append("class %s has only %d cases" % (k, c.get(k, 0)))
     return problems
